@@ -239,9 +239,22 @@ class WorldGen:
                 L.append("newreg|%d|%d" % (low, mid))
                 rb[low] = [mid]
             rb[other] = []
+            late = rnd.random() < 0.45
+            q = rnd.choice(["lookup|%d|i%d|%d|%s" % (low, y, p, nm), "lookupAll|%d|i%d|%d" % (low, y, p), "lookup1|%d|i%d|%d|%s" % (low, y, p, nm)])
+            if late:
+                # ... or: the registry above is re-based FIRST, the registry below answers once (the round in which it takes
+                # note of its new ancestors), and only then the newly reachable registry gets the registration
+                L.append(q)
+                rb[mid] = rb[mid] + [other]
+                L.append("rbases|%d|%s" % (mid, " ".join(map(str, rb[mid]))))
+                L.append(q)
+                L.append(("sub|%d|i%d|%d|%d %d" if rnd.random() < 0.3 else "reg|%d|i%d|%d|" + nm + "|%d %d") % (other, y, p, v[0], v[1]))
+                L.append(q)
+                L.append("lookup|%d|i%d|%d|%s" % (low, y, p, nm))
+                L.append("subs|%d|i%d|%d" % (low, y, p))
+                return
             L.append("reg|%d|i%d|%d|%s|%d %d" % (other, y, p, nm, v[0], v[1]))
             live.append(("reg", other, ("i%d" % y,), p, nm, v))
-            q = rnd.choice(["lookup|%d|i%d|%d|%s" % (low, y, p, nm), "lookupAll|%d|i%d|%d" % (low, y, p), "lookup1|%d|i%d|%d|%s" % (low, y, p, nm)])
             L.append(q)
             rb[mid] = rb[mid] + [other]
             L.append("rbases|%d|%s" % (mid, " ".join(map(str, rb[mid]))))
